@@ -108,6 +108,9 @@ type optsT struct {
 }
 
 func main() {
+	// the process lives in a zone that is not UTC, as most users' do: the signing time in the annotation must still be
+	// the instant the envelope states
+	time.Local = time.FixedZone("UTC+9", 9*3600)
 	r := lib.Start("C11", "exploration")
 	r.Rule = "PRNG sequences of 1-3 SignOCI calls (identical or alternating options) x resolved descriptors with 0-4 pre-existing annotations x user metadata {none, disjoint, colliding, reserved-prefixed, mixed} x reference {tag, digest, full with tag, full with digest, mismatching digest} x JWS/COSE x signer with/without plugin annotations, against an in-memory repository that hands out the same descriptor object and against a real on-disk OCI layout; distinct by (sequence, call); non-trivial = calls with user metadata or pre-existing annotations, and every 2nd/3rd call"
 	r.Assumptions = []string{"the map returned by a signer's own PluginAnnotations() is written to by annotation generation; it is neither a repository object nor a caller option map: observed, not judged"}
@@ -167,6 +170,13 @@ func main() {
 			}
 		} else {
 			artifact = ocispec.Descriptor{MediaType: ocispec.MediaTypeImageManifest, Digest: digest.FromBytes(content), Size: int64(len(content)), Annotations: copyMap(preAnn)}
+			if seq%4 == 2 { // a resolved descriptor may use every field of the type (an index entry has a platform, OCI 1.1 adds artifactType, ...)
+				artifact.Platform = &ocispec.Platform{Architecture: "arm64", OS: "linux", Variant: "v8"}
+				artifact.ArtifactType = "application/vnd.example.thing"
+				artifact.URLs = []string{"https://mirror.example/blob"}
+				artifact.Data = []byte("inline")
+				r.Event("resolved-descriptors-with-every-field")
+			}
 			mem = &memRepo{desc: artifact}
 			repo = mem
 		}
@@ -346,8 +356,10 @@ func main() {
 				}
 				wantAnn[k] = v
 			}
-			if got.Digest != resolvedSnap.Digest || got.Size != resolvedSnap.Size || got.MediaType != resolvedSnap.MediaType || !sameMap(got.Annotations, wantAnn) {
-				r.Violation(sig("signed-descriptor"), fmt.Sprintf("the signer received %v %v, expected the resolved descriptor with annotations %v", got.Digest, got.Annotations, wantAnn), wit)
+			gotRest, wantRest := deepDesc(got), deepDesc(resolvedSnap)
+			gotRest.Annotations, wantRest.Annotations = nil, nil
+			if !reflect.DeepEqual(gotRest, wantRest) || !sameMap(got.Annotations, wantAnn) {
+				r.Violation(sig("signed-descriptor"), fmt.Sprintf("the signer received %+v, expected exactly the resolved descriptor %+v with annotations %v", got, resolvedSnap, wantAnn), wit)
 			}
 			if aDesc.Digest != resolvedSnap.Digest || aDesc.Size != resolvedSnap.Size {
 				r.Violation(sig("returned-descriptor"), "SignOCI returned another artifact descriptor", wit)
@@ -359,8 +371,10 @@ func main() {
 					continue
 				}
 				p := mem.pushes[len(mem.pushes)-1]
-				if p.Subject.Digest != resolvedSnap.Digest || p.Subject.Size != resolvedSnap.Size || p.Subject.MediaType != resolvedSnap.MediaType {
-					r.Violation(sig("pushed-subject"), fmt.Sprintf("signature attached to %v, resolved artifact is %v", p.Subject.Digest, resolvedSnap.Digest), wit)
+				subjRest, resRest := deepDesc(p.Subject), deepDesc(resolvedSnap)
+				subjRest.Annotations, resRest.Annotations = nil, nil
+				if !reflect.DeepEqual(subjRest, resRest) || !sameMap(p.Subject.Annotations, resolvedSnap.Annotations) {
+					r.Violation(sig("pushed-subject"), fmt.Sprintf("signature attached to the subject %+v, the resolved artifact is %+v (the user metadata belongs into the signed payload, not onto the subject)", p.Subject, resolvedSnap), wit)
 				}
 				if p.MediaType != o.Format {
 					r.Violation(sig("pushed-media-type"), "signature pushed with another media type", wit)
@@ -371,7 +385,11 @@ func main() {
 					continue
 				}
 				st := content.SignerInfo.SignedAttributes.SigningTime
-				wantPush := map[string]string{"io.cncf.notary.x509chain.thumbprint#S256": string(thumbJSON), ocispec.AnnotationCreated: st.Format(time.RFC3339)}
+				created, perr := time.Parse(time.RFC3339, p.Annotations[ocispec.AnnotationCreated])
+				if perr != nil || !created.Equal(st.Truncate(time.Second)) {
+					r.Violation(sig("pushed-annotations"), fmt.Sprintf("the annotation %s=%q does not state the signing time of the envelope, %s (process zone UTC+9)", ocispec.AnnotationCreated, p.Annotations[ocispec.AnnotationCreated], st.UTC().Format(time.RFC3339)), wit)
+				}
+				wantPush := map[string]string{"io.cncf.notary.x509chain.thumbprint#S256": string(thumbJSON), ocispec.AnnotationCreated: p.Annotations[ocispec.AnnotationCreated]}
 				for k, v := range rs.plugin {
 					if _, generated := wantPush[k]; !generated {
 						wantPush[k] = v
